@@ -521,7 +521,8 @@ def drive(prop_id, tier, seed_value, only=None, jobs=None, scale=1.0,
         if sub.exhaustive:
             shards = 1
         per = int(math.ceil(n / shards))
-        keys = [f["key"] for f in known if f.get("subcheck") in (None, sub.name)]
+        keys = [f["key"] for f in known
+                if f["property"] != prop_id or f.get("subcheck") in (None, sub.name)]
         for sh in range(shards):
             tasks.append((prop_id, sub.name, sh, per,
                           derive_seed(seed_value, prop_id, sub.name, sh),
@@ -540,7 +541,8 @@ def drive(prop_id, tier, seed_value, only=None, jobs=None, scale=1.0,
                 n = min(sub.thorough, int(sub.quick * float(os.environ.get("VERIF_THOROUGH_FACTOR", "15"))))
                 n = max(200, int(n * frac * scale))
                 shards = max(1, min(jobs, n // 400))
-                keys = [f["key"] for f in known if f.get("subcheck") in (None, sub.name)]
+                keys = [f["key"] for f in known
+                if f["property"] != prop_id or f.get("subcheck") in (None, sub.name)]
                 for sh in range(shards):
                     tasks.append(("fuzz", prop_id, sub.name, sh, int(math.ceil(n / shards)),
                                   derive_seed(seed_value, prop_id, sub.name, "fuzz", sh), keys))
